@@ -1263,3 +1263,31 @@ func OrDeferred(pred func(ssa.Instruction) bool) func(ssa.Instruction) bool {
 		return found
 	}
 }
+
+// blockLocalValue resolves a load of a local variable to the value stored to
+// it last in the same block before the load (named results and spilled
+// locals); other values are returned unchanged.
+func blockLocalValue(v ssa.Value) ssa.Value {
+	u, ok := v.(*ssa.UnOp)
+	if !ok || u.Op != token.MUL {
+		return v
+	}
+	a, ok := u.X.(*ssa.Alloc)
+	if !ok {
+		return v
+	}
+	blk := u.Block()
+	var last ssa.Value
+	for _, in := range blk.Instrs {
+		if in == ssa.Instruction(u) {
+			break
+		}
+		if st, ok := in.(*ssa.Store); ok && st.Addr == ssa.Value(a) {
+			last = st.Val
+		}
+	}
+	if last != nil {
+		return last
+	}
+	return v
+}
